@@ -129,8 +129,10 @@ type State struct {
 	clock      *Term
 	nclock     int
 	timers     bool
+	frozen     bool
 	inQuiesce  bool
 	forced     *Trans
+	model      Model // a model of pc (nil: unknown)
 	blocked    []string
 	race       *raceInfo
 	events     *EventNode
@@ -418,6 +420,12 @@ func (s *State) wframe(g *G, n int) *Frame {
 func (e *Engine) pcAdd(s *State, t *Term) {
 	if t.IsTrue() {
 		return
+	}
+	if s.model != nil {
+		memo := map[int]uint64{}
+		if e.ts.Eval(t, s.model, memo) != 1 {
+			s.model = nil
+		}
 	}
 	key := [2]int{0, t.id}
 	if s.pc != nil {
@@ -794,6 +802,9 @@ func (e *Engine) hashState(s *State) stateKey {
 	}
 	if s.timers {
 		h.b(1)
+	}
+	if s.frozen {
+		h.b(2)
 	}
 	if s.clock != nil {
 		h.u(s.clock.h)
